@@ -238,8 +238,12 @@ func (r *RecBackend) Publish(c *broker.Client, msg *packet.Message, ack broker.A
 	wrapped := ack
 	if ack != nil {
 		logged := func() {
+			// "ack" marks the moment the backend starts to acknowledge (an
+			// acknowledgement packet can only follow it), "ack-done" the moment the
+			// broker's acknowledgement callback has returned (the broker knows)
 			r.EL.Add(memconn.Event{Actor: "backend", Op: "ack", Topic: msg.Topic, Tag: tag(msg), Note: c.ID()})
 			ack()
+			r.EL.Add(memconn.Event{Actor: "backend", Op: "ack-done", Topic: msg.Topic, Tag: tag(msg), Note: c.ID()})
 		}
 		r.mu.Lock()
 		mode := r.AckMode
